@@ -154,7 +154,10 @@ def run_segment(rep, tier, seed, out_dir, k1, model):
     c = vlib.run_lines(k1, cases, shards=4)
     m = vlib.run_lines(model, cases, shards=vlib.NCPU)
     rep.evaluated(len(cases))
-    bad = vlib.diff_cases(rep, cases, c, m, 'lru-cache')
+    failing = {i for i, ((cap_, ops_), o_) in enumerate(zip(metas, c)) if not (o_.startswith('CRASH') or o_.startswith('EXC')) and oracle(ops_, o_)}
+    failing |= {i for i, o_ in enumerate(c) if o_.startswith('CRASH')}
+    bad = vlib.diff_cases(rep, cases, c, m, 'lru-cache', failing=failing,
+                          correspondence='Cache.v (LRU shard model) vs ldb_lru_* : theorems Properties_C01c.C01_cache_*')
     nor = 0
     for line, (cap, ops), o in zip(cases, metas, c):
         if o.startswith('CRASH') or o.startswith('EXC'):
